@@ -193,15 +193,32 @@ fn poly(rng: &mut StdRng) -> Value {
     json!({"seeds": seeds, "steps": steps, "point": point_json(&vars), "tag": "poly"})
 }
 
-fn seed_texts(rng: &mut StdRng) -> Vec<String> {
+fn seed_texts(rng: &mut StdRng, chains: bool) -> Vec<String> {
     let pool = ["x", "y", "x+y", "2*x", "x*y-1", "z", "0", "1", "0.0", "1.0", "sin(x)", "x^2", "(x+1)/(y-2)", "3", "-x", "a*b", "x-x", "2/4", "{v w}+1", "abs(y)", "x/y/z",
                 "sin(cos(x))", "-sin(x*y)", "+cos(ln(z))", "exp(sin(cos(y)))", "tan(x)*0", "z*0", "0*(a+b)", "sin(y)", "sqrt(exp(x))"];
     let n = rng.random_range(2..=6);
-    (0..n).map(|_| pool.choose(rng).unwrap().to_string()).collect()
+    (0..n).map(|_| if chains && rng.random_bool(0.12) { chain_seed(rng) } else { pool.choose(rng).unwrap().to_string() }).collect()
+}
+
+/// one long level without parentheses: 22..45 operands, operators with priority ties (`+`, `min`, `max` share a
+/// priority in the float table) mixed with higher priorities, so that the order among equal priorities matters
+fn chain_seed(rng: &mut StdRng) -> String {
+    let n = rng.random_range(22..=45);
+    let ops = ["+", "+", "+", " min ", " min ", " max ", "-", "-", "*", "*", "/"];
+    let vars = ["x", "y", "z", "a", "b"];
+    let mut s = String::new();
+    for i in 0..n {
+        if i > 0 {
+            s.push_str(ops.choose(rng).unwrap());
+        }
+        if rng.random_bool(0.6) { s.push_str(vars.choose(rng).unwrap()) } else { s.push_str(&rng.random_range(1..=9).to_string()) }
+    }
+    s
 }
 
 fn ops(rng: &mut StdRng, with: &[&str]) -> Value {
-    let texts = seed_texts(rng);
+    // long one-level chains only where printing is what is exercised (substituting them into each other explodes)
+    let texts = seed_texts(rng, with.iter().filter(|w| **w == "print").count() >= 2);
     let seeds: Vec<Value> = texts.iter().map(|t| json!({"text": cps(t), "form": if rng.random_bool(0.5) { "flat" } else { "deep" }})).collect();
     let mut size = seeds.len();
     let n_steps = rng.random_range(3..=14);
@@ -276,7 +293,21 @@ fn valdiff(rng: &mut StdRng) -> Value {
                 if a != b {
                     let cmp = *[">", "<", ">=", "<=", "==", "!="].choose(rng).unwrap();
                     let other = piece(rng, vars, depth - 1, fns);
-                    let wrapped = format!("(({body}) if ({l}) {cmp} ({r}) else ({other}))");
+                    // half of the conditions without parentheses around the operands: arithmetic and comparison then share
+                    // one nesting level of the deep form (`x - 1 > 0`)
+                    fn strip_outer(s: &str) -> &str {
+                        if !s.starts_with('(') { return s; }
+                        let mut depth = 0;
+                        for (i, c) in s.char_indices() {
+                            match c { '(' => depth += 1, ')' => { depth -= 1; if depth == 0 { return if i == s.len() - 1 { &s[1..i] } else { s }; } } _ => {} }
+                        }
+                        s
+                    }
+                    let wrapped = if rng.random_bool(0.5) {
+                        format!("(({body}) if {} {cmp} {} else ({other}))", strip_outer(&l), strip_outer(&r))
+                    } else {
+                        format!("(({body}) if ({l}) {cmp} ({r}) else ({other}))")
+                    };
                     return match rng.random_range(0..4) {
                         0 => format!("{wrapped} * ({})", vars[0].0),
                         1 => format!("2.5 + {wrapped}"),
